@@ -2,7 +2,8 @@
 (* Bounded instance for C01: every file set from the pool, every order, several path spellings. *)
 EXTENDS Vol, Scen
 CONSTANTS MaxFiles, Big      \* Big: member sizes around the 128 KiB copy chunk instead of the small residues
-VARIABLES done
+VARIABLES kind, fset, fsz
+vars == <<kind, fset, fsz>>
 \* name pool built to hit the ordering corners: "a" "A" "B" "ab" "a_" "a.b" "Z9" "a-"
 Pool == << <<97>>, <<65>>, <<66>>, <<97,98>>, <<97,95>>, <<97,46,98>>, <<90,57>>, <<97,45>> >>
 Sizes == IF Big THEN {131071, 131072, 131073, 262144} ELSE {0, 1, 2, 3, 4, 5}
@@ -44,17 +45,26 @@ SelfScenario(v, extra) ==
      \o << VolCreateRel(OutName, << Pool[extra], self >>, "refuse"), FileEq(OutName, << Lit(<<1, 2, 3>>) >>), FileEq(Pool[extra], other.data),
            VolCreateRel(OutName, << self, Pool[extra] >>, "refuse"), FileEq(OutName, << Lit(<<1, 2, 3>>) >>) >>
 Distinct(ixs) == \A i, j \in DOMAIN ixs : i # j => ixs[i] # ixs[j]
-Init == done = FALSE
-Next == /\ ~done /\ done' = TRUE
-        /\ \A n \in 0..MaxFiles : \A ixs \in Seqs(1..Len(Pool), n) :
-             Distinct(ixs) =>
-               \A szs \in Seqs(Sizes, n) :
-                 \* one spelling vector per (ixs, szs), rotating through the directories
-                 LET ds == [i \in 1..n |-> ((ixs[i] + szs[i] + i) % Len(Dirs)) + 1]
-                     sc == Scenario(ixs, szs, ds)
-                     ms == SortCI([i \in 1..n |-> Member(ixs[i], szs[i], i)])
-                 IN /\ (~HasDup(ms) => Assert(WellFormed(ms), <<"layout not well-formed", ms>>))
-                    /\ (sc # <<>> => PrintT("S|" \o ToJson([id |-> <<ixs, szs>>, steps |-> sc])))
-        /\ (~Big => \A v \in 1..Len(OutVariants) : \A extra \in {1, 3} : PrintT("S|" \o ToJson([id |-> <<"self", v, extra>>, steps |-> SelfScenario(v, extra)])))
-Spec == Init /\ [][Next]_done
+\* ---- one TLC state per input: the file set (indices into the name pool, sizes) or a "self" case ------------------------------------------
+\* The model-level laws are INVARIANTs evaluated in every state; Export (an invariant that always holds) prints the state's scenario.
+Init == \/ /\ kind = "set"
+           /\ \E n \in 0..MaxFiles : fset \in Seqs(1..Len(Pool), n) /\ fsz \in Seqs(Sizes, n)
+           /\ Distinct(fset)
+        \/ /\ kind = "self" /\ ~Big
+           /\ fset \in {<<v, extra>> : v \in 1..Len(OutVariants), extra \in {1, 3}} /\ fsz = <<>>
+Next == UNCHANGED vars
+Spec == Init /\ [][Next]_vars
+Members == [i \in 1..Len(fset) |-> Member(fset[i], fsz[i], i)]
+\* every layout of a duplicate-free file set is well-formed under the format description (C02)
+LayoutWellFormed == (kind = "set" /\ ~HasDup(Members)) => WellFormed(SortCI(Members))
+\* sorting is a permutation that puts the names in ascending case-blind order (C01)
+SortedAscending == kind = "set" => LET s == SortCI(Members) IN
+                     /\ Len(s) = Len(Members) /\ \A i \in 1..(Len(s) - 1) : ~Less(s[i + 1].name, s[i].name)
+                     /\ \A m \in {Members[i] : i \in 1..Len(Members)} : \E j \in 1..Len(s) : s[j] = m
+Export == IF kind = "self" THEN PrintT("S|" \o ToJson([id |-> <<"self", fset>>, steps |-> SelfScenario(fset[1], fset[2])]))
+          ELSE LET n == Len(fset)
+                   \* one spelling vector per (fset, fsz), rotating through the directories
+                   ds == [i \in 1..n |-> ((fset[i] + fsz[i] + i) % Len(Dirs)) + 1]
+                   sc == Scenario(fset, fsz, ds)
+               IN sc # <<>> => PrintT("S|" \o ToJson([id |-> <<fset, fsz>>, steps |-> sc]))
 ====
